@@ -360,18 +360,26 @@ theorem ext_runScms {sem : ScmSem σ κ} {new : List (NewEntry σ)} :
       | true => exact h1.trans (ih (fun m hm => hsub m (List.mem_cons_of_mem _ hm)) st')
       | false => exact h1
 
+theorem markComplete_fields (r : St σ κ × Option Err) :
+    (markComplete r).1.fs = r.1.fs ∧ (markComplete r).1.ops = r.1.ops ∧ (markComplete r).1.nextAttic = r.1.nextAttic ∧
+    (markComplete r).1.old = r.1.old ∧ (markComplete r).1.wsMissing = r.1.wsMissing ∧ (markComplete r).2 = r.2 := by
+  unfold markComplete
+  cases r.2 <;> simp
+
 theorem ext_finish {sem : ScmSem σ κ} {new : List (NewEntry σ)} (st1 : St σ κ) :
     Ext sem new st1
-      (runScms sem new (emit (.setDirState (new.map (·.dir))) { st1 with old := new.map asOld })).1 :=
-  ((ext_of_same (b := { st1 with old := new.map asOld }) rfl rfl rfl).trans
+      (markComplete (runScms sem new (emit (.setDirState (new.map (·.dir)))
+        { st1 with old := new.map asOld, complete := false }))).1 :=
+  (((ext_of_same (b := { st1 with old := new.map asOld, complete := false }) rfl rfl rfl).trans
     (ext_emit (.setDirState (new.map (·.dir))) _ (by intros; simp) (by simp [Allowed]))).trans
-    (ext_runScms new (fun _ h => h) _)
+    (ext_runScms new (fun _ h => h) _)).trans
+    (ext_of_same (markComplete_fields _).2.1 (markComplete_fields _).1 (markComplete_fields _).2.2.1)
 
 theorem ext_cook (sem : ScmSem σ κ) (fl : Flags) (indet : Bool) (new : List (NewEntry σ)) (st0 : St σ κ) :
     Ext sem new st0 (cook sem fl indet new st0).1 := by
   unfold Checkout.cook
   simp only
-  generalize hst0 : (if st0.wsMissing = true then { st0 with wsMissing := false, old := [], plain := [] } else st0) = sta
+  generalize hst0 : (if st0.wsMissing = true then { st0 with wsMissing := false, old := [], plain := [], complete := false } else st0) = sta
   have ha : Ext sem new st0 sta := by
     subst hst0; split
     · exact ext_of_same rfl rfl rfl
@@ -596,7 +604,7 @@ theorem J_cook (hs : SemKeeps sem work) (fl : Flags) (indet : Bool) (st0 : St σ
     (h : J sem work new fs0 i st0.fs) : J sem work new fs0 i (cook sem fl indet new st0).1.fs := by
   unfold Checkout.cook
   simp only
-  generalize hst0 : (if st0.wsMissing = true then { st0 with wsMissing := false, old := [], plain := [] } else st0) = sta
+  generalize hst0 : (if st0.wsMissing = true then { st0 with wsMissing := false, old := [], plain := [], complete := false } else st0) = sta
   have ha : J sem work new fs0 i sta.fs := by
     subst hst0; split <;> exact h
   generalize hstb : (if fl.cleanCheckout = true then cleanInvalidate sem new sta else sta) = stb
@@ -616,7 +624,8 @@ theorem J_cook (hs : SemKeeps sem work) (fl : Flags) (indet : Bool) (st0 : St σ
         simp only
         split
         · exact hl
-        · exact J_runScms hs new (fun _ h => h) _ hl
+        · rw [(markComplete_fields _).1]
+          exact J_runScms hs new (fun _ h => h) _ hl
 
 theorem J_init (st0 : St σ κ) (h : Present work st0.fs i) : J sem work new st0.fs i st0.fs := by
   obtain ⟨l, k, hm, hw⟩ := h
